@@ -210,5 +210,6 @@ func init() {
 			econst.CheckNamed(run, p, "CONST", names...)
 		}
 		arithmeticFoundations(c)
+		groupFoundations(c, true)
 	}
 }
